@@ -31,6 +31,7 @@ EXPLANATION += ' C09.R5 also requires that after traceparent the tracestate Set 
 EXPLANATION += ' C09.R8 (bounded regex): every std::regex applied to header bytes either has a finite maximal match length (computed from the pattern by the same normal form as C14.R7) or is reached only behind a size guard - an unbounded quantifier over attacker-sized input recurses without bound in libstdc++.'
 ROUND2_EXPLANATION = (' C09.R9: every memcmp / memcpy on the representation of TraceId / SpanId covers the static extent of the array. C09.R10: the fields are split from Trim(carrier.Get(traceparent)) and the trace state is parsed from carrier.Get(tracestate) (dependence through the inlined private helpers). Shared C16.R5: HttpTraceContext is a function of (carrier, given context).')
 ROUND2_EXPLANATION += (' C09.R3 also folds value ranges of index expressions through narrow unsigned types, masks, shifts and locals initialised once. C09.R10 follows ?: selections inside the inlined trim helper.')
+ROUND2_EXPLANATION += (' C09.R11: the trace id, span id and flags of the extracted context are decoded from fields 1 / 2 / 3 of the traceparent and the context is marked remote (field table, shared implementation with C16.R6).')
 EXPLANATION += ROUND2_EXPLANATION
 NOT_DECIDED = ('that exactly the W3C-well-formed byte strings are accepted over all inputs; memory safety of HexToBinary\'s '
                'variable-index writes (relational bound buffer_pos < buffer_size).')
@@ -795,7 +796,21 @@ def rule_r10_header_sources(ck, prog, rule='C09.R10', cls='trace::propagation::H
                    'the trace state of the extracted context is parsed from %s instead of the tracestate header: the vendor list is lost (or garbage is parsed)' % sorted(h))
 
 
+W3C_FIELD_TABLE = {
+    # traceparent = version "-" trace-id "-" parent-id "-" trace-flags
+    'trace::propagation::HttpTraceContext::ExtractContextFromTraceHeaders': ({('field', 1)}, {('field', 2)}, {('field', 3)}),
+}
+
+
+def rule_r11_field_table(ck, prog, rule='C09.R11'):
+    """the ids and flags of the extracted context are decoded from the documented fields of the traceparent (shared implementation
+    with C16.R6: dependence through locals, decode helpers and their output buffers)"""
+    from . import c16
+    c16.rule_r6_extracted_context(ck, prog, rule=rule, table=W3C_FIELD_TABLE)
+
+
 def run(ck, prog):
+    ck.doc('C09.R11', 'trace id / span id / flags of the extracted context come from fields 1 / 2 / 3 of the traceparent; the context is remote', 4)
     ck.doc('C09.R1', 'InjectImpl: constant-bounded writes partition the 55-byte buffer; literal bytes; view size', 3)
     ck.doc('C09.R2', 'writer digit tables are lower-case hex in all three siblings; reader table exact over 256 entries', 4)
     ck.doc('C09.R3', 'every subscript into a constant-size array is bounded by constant, type or mask', 12)
@@ -807,6 +822,7 @@ def run(ck, prog):
     with ck.canary('C09.R3'):
         rule_r3(ck, prog, only='canary::c09::')
     rule_r1(ck, prog)
+    rule_r11_field_table(ck, prog)
     rule_r2(ck, prog)
     rule_r3(ck, prog)
     rule_r4(ck, prog)
